@@ -527,9 +527,11 @@ def field_jobs(chk, seed, w, rows, quick):
                 if quick:
                     # deterministic thinning: one value per instance, rotating through the values of the
                     # class from instance to instance and file to file; at most 5 instances per class and file
+                    # (jump targets: every value for up to 5 instances — few instances, and each value class —
+                    #  outside the script, inside an instruction, negative — exercises different code)
                     if len(ins) > 5 and i not in set(chk_spread(len(ins), 5)):
                         continue
-                    if (i * 7 + j) % len(vals) != 0:
+                    if cls != "jump_target" and (i * 7 + j) % len(vals) != 0:
                         continue
                 m = apply_row(seed["data"], off, width, row)
                 if m == seed["data"] or (off, m[off:off + width]) in seen:
@@ -627,7 +629,10 @@ EXTRACT_CLASSES = ("field:dim", "field:format", "field:size", "field:magic", "fi
 def mk_jobs(seed, data, gen, k, hist, quick=False):
     """decompile under a rotating option set; ANM inputs are also extracted (same history; quick tier:
     the inputs that touch the container / texture fields and every third other input)"""
-    jobs = [tc.Job(seed["tool"], "decompile", seed["game"], data, seed["ext"], opts=opts_for(k), gen=gen, hist=hist)]
+    # fields whose meaning only exists when the decompiler *interprets* the instruction (jump targets and times,
+    # register ids) are decompiled with everything enabled: --no-intrinsics / --no-arguments would bypass that code
+    semantic = gen.get("class") in ("field:jump_target", "field:jump_time", "field:register")
+    jobs = [tc.Job(seed["tool"], "decompile", seed["game"], data, seed["ext"], opts=[] if semantic else opts_for(k), gen=gen, hist=hist)]
     if seed["tool"] == "truanm" and (not quick or gen["class"] in EXTRACT_CLASSES or k % 3 == 0):
         jobs.append(tc.Job(seed["tool"], "extract", seed["game"], data, seed["ext"], gen=gen, hist=hist))
     return jobs
